@@ -28,7 +28,12 @@ the ORG check, `assignAddrs`, `fixAll`, `evalSyms`, `finalSymTab`; lemmas in `Le
 * `C18_R2_Statement_false` — the first formalisation `C18_R2_Statement` of `Props/C18.lean` is false as stated (it does
   not tie the operand text, from which PSHS / EXG read their registers): `PSHS A` / `PSHS B`.
 
-Not covered: a closed-form text-level theorem (`parseLine` of a textually renamed line for every operand syntax) — the
+Batch 8 (symbols and expressions inside FCB / FDB lists, `evalLists`): the elements of a list are evaluated from the
+operand TEXT, which `renameStmt` does not rename and `Rename.rnStmt` only maps by `txt`; `RenOK` has the new field `lists`
+(`NoPendingLists`: the FCB / FDB lists of the program are lists of literals) and `TxtOK` a second clause (`txt` leaves the
+texts of these lists alone). `C18_R2_witness_lists`: a program with literal lists.
+
+Not covered: FCB / FDB lists with a symbol or an expression among their elements (jump tables `FDB L1,L2`); a closed-form text-level theorem (`parseLine` of a textually renamed line for every operand syntax) — the
 text level is reached through the check `renamedTextB`; index left parts outside `SimpleLeft` (a mode prefix `<`, `>`,
 `#` before a symbol, an operand of an expression that is not a symbol, a decimal up to 65535 or `$` with one to four
 hex digits).
@@ -92,30 +97,49 @@ theorem rnValue_textRen (ρ txt : Str → Str) : ∀ (v : Value), Rename.rnValue
 
 /-! ## the side conditions -/
 
+/-- (batch 8) no statement of `ss` reaches the evaluation of the FCB / FDB lists (`evalLists`; `Rename.preLists ss` are the
+statements at that point) with a byte / word list in its operand field that has a symbol or an expression among the
+elements of its operand text (`Rename.litElems`: no element is `pendingAt` width 2 or 4). `noPendingListsB` is the
+executable form. -/
+def NoPendingLists (ss : List Stmt) : Prop :=
+  ∀ x, Rename.preLists ss = some x → ∀ s ∈ x, Rename.isList s.pkg.additional = true →
+    Rename.litElems s.operand.text = true
+
 /-- what C18-R2 asks of the renaming `ρ` of the program `ss`:
 * `inj` — two names that occur in `ss` (labels, symbols in operands, symbols in index left parts) are not renamed to
   the same name;
 * `label` — a renamed label is still a label;
 * `left` — the text of an index left part (`TABLE` in `LDA TABLE,X`) is one of the shapes `SimpleLeft` (empty, `A`/`B`/`D`,
   a symbol, a number, `atom op atom`, …), the statement is not an FCC, and the new names in it are symbols again and
-  not `A`, `B`, `D` unless the old one was -/
+  not `A`, `B`, `D` unless the old one was;
+* `lists` (batch 8, symbols inside FCB / FDB lists) — `NoPendingLists ss`: no FCB / FDB LIST has a symbol or an expression
+  among its elements. Such elements are evaluated from the operand TEXT (`evalLists`), which `renameStmt` does not
+  rename -/
 structure RenOK (ρ : Str → Str) (ss : List Stmt) : Prop where
   inj : Rename.InjOn ρ (Rename.progNames ss)
   label : ∀ s ∈ ss, s.label ≠ [] → ρ s.label ≠ []
   left : ∀ s ∈ ss, ∀ l, s.operand.left = .text l →
     s.row.isStringDefine = false ∧ Rename.SimpleLeft l = true ∧ ∀ x ∈ Rename.leftNames l, Rename.GoodName x (ρ x)
+  lists : NoPendingLists ss
 
-/-- a renaming of operand texts must leave the register lists of PSHS / PULS / EXG / TFR alone -/
+/-- a renaming of operand texts must leave the register lists of PSHS / PULS / EXG / TFR alone, and (batch 8) the texts
+of the FCB / FDB lists (lists of literals under `RenOK.lists`: there is no name in them) -/
 def TxtOK (txt : Str → Str) (ss : List Stmt) : Prop :=
-  ∀ s ∈ ss, s.operand.kind = .special → txt s.operand.text = s.operand.text
+  (∀ s ∈ ss, s.operand.kind = .special → txt s.operand.text = s.operand.text) ∧
+  ∀ x, Rename.preLists ss = some x → ∀ s ∈ x, Rename.isList s.pkg.additional = true →
+    txt s.operand.text = s.operand.text
 
-theorem txtOK_id (ss : List Stmt) : TxtOK id ss := fun _ _ _ => rfl
+theorem txtOK_id (ss : List Stmt) : TxtOK id ss := ⟨fun _ _ _ => rfl, fun _ _ _ _ _ => rfl⟩
+
+theorem RenOK.listsOK {ρ txt : Str → Str} {ss : List Stmt} (h : RenOK ρ ss) (ht : TxtOK txt ss) :
+    Rename.ListsOK (textRen ρ txt) ss :=
+  fun x hx s hs hl => ⟨h.lists x hx s hs hl, ht.2 x hx s hs hl⟩
 
 /-- the statements of `ss` meet what the back end lemmas ask -/
 theorem RenOK.stmtOK {ρ txt : Str → Str} {ss : List Stmt} (h : RenOK ρ ss) (ht : TxtOK txt ss) :
     ∀ s ∈ ss, Rename.StmtOK (textRen ρ txt) s := by
   intro s hs
-  refine ⟨?_, ht s hs, h.label s hs⟩
+  refine ⟨?_, ht.1 s hs, h.label s hs⟩
   cases hl : s.operand.left with
   | text l =>
     obtain ⟨h1, h2, h3⟩ := h.left s hs l hl
@@ -126,9 +150,10 @@ theorem RenOK.stmtOK {ρ txt : Str → Str} {ss : List Stmt} (h : RenOK ρ ss) (
 `B`, `D` to one of these, injectively; index left parts are simple -/
 theorem RenOK.of_uniform {ρ : Str → Str} {ss : List Stmt} (hinj : Rename.InjOn ρ (Rename.progNames ss))
     (hgood : ∀ x ∈ Rename.progNames ss, Rename.GoodName x (ρ x))
-    (hleft : ∀ s ∈ ss, ∀ l, s.operand.left = .text l → s.row.isStringDefine = false ∧ Rename.SimpleLeft l = true) :
+    (hleft : ∀ s ∈ ss, ∀ l, s.operand.left = .text l → s.row.isStringDefine = false ∧ Rename.SimpleLeft l = true)
+    (hlists : NoPendingLists ss) :
     RenOK ρ ss := by
-  refine ⟨hinj, ?_, ?_⟩
+  refine ⟨hinj, ?_, ?_, hlists⟩
   · intro s hs hl
     have hm : s.label ∈ Rename.progNames ss :=
       List.mem_flatMap.mpr ⟨s, hs, by simp [Rename.stmtNames, hl]⟩
@@ -150,7 +175,7 @@ theorem RenOK.of_uniform {ρ : Str → Str} {ss : List Stmt} (hinj : Rename.InjO
 theorem C18_R2_back_text (ρ txt : Str → Str) (ss : List Stmt) (h : RenOK ρ ss) (ht : TxtOK txt ss) :
     back (ss.map (Rename.renameStmt (textRen ρ txt))) = (back ss).map (Rename.rnAssembly (textRen ρ txt)) :=
   Rename.back_rn ss (Rename.progNames ss) h.inj
-    (fun s hs x hx => List.mem_flatMap.mpr ⟨s, hs, hx⟩) (h.stmtOK ht)
+    (fun s hs x hx => List.mem_flatMap.mpr ⟨s, hs, hx⟩) (h.stmtOK ht) (h.listsOK ht)
 
 /-- C18-R2 for the back end: renaming the statements renames the assembly and nothing else -/
 theorem C18_R2_back (ρ : Str → Str) (ss : List Stmt) (h : RenOK ρ ss) :
@@ -267,13 +292,34 @@ def leftOKb (ρ : Str → Str) (s : Stmt) : Bool :=
   | .text l => !s.row.isStringDefine && Rename.SimpleLeft l && (Rename.leftNames l).all (fun x => goodNameB x (ρ x))
   | _ => true
 
+/-- every statement that reaches the list pass with a byte / word list satisfies `p` -/
+def listsAllB (ss : List Stmt) (p : Stmt → Bool) : Bool :=
+  match Rename.preLists ss with
+  | none => true
+  | some x => x.all (fun s => !Rename.isList s.pkg.additional || p s)
+
+theorem listsAllB_spec {ss : List Stmt} {p : Stmt → Bool} (h : listsAllB ss p = true) :
+    ∀ x, Rename.preLists ss = some x → ∀ s ∈ x, Rename.isList s.pkg.additional = true → p s = true := by
+  intro x hx s hs hl
+  unfold listsAllB at h
+  rw [hx] at h
+  have := List.all_eq_true.mp h s hs
+  rw [hl] at this
+  simpa using this
+
+def noPendingListsB (ss : List Stmt) : Bool := listsAllB ss (fun s => Rename.litElems s.operand.text)
+
+theorem noPendingLists_of_check {ss : List Stmt} (h : noPendingListsB ss = true) : NoPendingLists ss :=
+  listsAllB_spec h
+
 def renOKb (ρ : Str → Str) (ss : List Stmt) : Bool :=
-  injOnB ρ (Rename.progNames ss) && ss.all (fun s => (s.label.isEmpty || !(ρ s.label).isEmpty) && leftOKb ρ s)
+  injOnB ρ (Rename.progNames ss) && ss.all (fun s => (s.label.isEmpty || !(ρ s.label).isEmpty) && leftOKb ρ s) &&
+    noPendingListsB ss
 
 theorem renOK_of_check {ρ : Str → Str} {ss : List Stmt} (h : renOKb ρ ss = true) : RenOK ρ ss := by
   simp only [renOKb, Bool.and_eq_true, List.all_eq_true] at h
-  obtain ⟨h1, h2⟩ := h
-  refine ⟨?_, ?_, ?_⟩
+  obtain ⟨⟨h1, h2⟩, h4⟩ := h
+  refine ⟨?_, ?_, ?_, noPendingLists_of_check h4⟩
   · intro x hx y hy he
     have := h1
     simp only [injOnB, List.all_eq_true, Bool.or_eq_true, bne_iff_ne, beq_iff_eq] at this
@@ -322,19 +368,23 @@ def txtOf (pa pb : List Stmt) : Str → Str :=
 /-- `pb` is `pa` with labels, symbols and operand texts renamed, and `ρ` satisfies the side conditions on `pa` -/
 def renamedTextB (ρ : Str → Str) (pa pb : List Stmt) : Bool :=
   renOKb ρ pa && decide (pb = pa.map (Rename.renameStmt (textRen ρ (txtOf pa pb)))) &&
-    pa.all (fun s => s.operand.kind != .special || txtOf pa pb s.operand.text == s.operand.text)
+    pa.all (fun s => s.operand.kind != .special || txtOf pa pb s.operand.text == s.operand.text) &&
+    listsAllB pa (fun s => txtOf pa pb s.operand.text == s.operand.text)
 
 /-- C18-R2 for two statement lists that pass the check (e.g. the parsed forms of a source and of its textual renaming) -/
 theorem C18_R2_text_check (ρ : Str → Str) (pa pb : List Stmt) (h : renamedTextB ρ pa pb = true) :
     (back pb).kind = (back pa).kind ∧ ∀ a, back pa = .ok a → ∃ b, back pb = .ok b ∧ SameButNames ρ a b := by
   simp only [renamedTextB, Bool.and_eq_true, decide_eq_true_eq, List.all_eq_true, Bool.or_eq_true, bne_iff_ne,
     beq_iff_eq] at h
-  obtain ⟨⟨h1, h2⟩, h3⟩ := h
+  obtain ⟨⟨⟨h1, h2⟩, h3⟩, h5⟩ := h
   have ht : TxtOK (txtOf pa pb) pa := by
-    intro s hs hk
-    rcases h3 s hs with h | h
-    · exact absurd hk h
-    · exact h
+    refine ⟨?_, ?_⟩
+    · intro s hs hk
+      rcases h3 s hs with h | h
+      · exact absurd hk h
+      · exact h
+    · intro x hx s hs hl
+      simpa using listsAllB_spec h5 x hx s hs hl
   obtain ⟨k1, k2⟩ := C18_R2_full_text ρ (txtOf pa pb) pa (renOK_of_check h1) ht
   rw [← h2] at k1 k2
   refine ⟨k1, ?_⟩
@@ -489,6 +539,62 @@ theorem C18_R2_witness_assemble (fs : Files) :
   have hcB' := of_decide_eq_true hcB
   exact ⟨A, B, hA, hB, hcA'.1, by rw [hcB'.1, hcA'.1], by rw [hcB'.2, hcA'.2]⟩
 
+/-! ## a witness with FCB / FDB lists (batch 8)
+
+The lists of this program are lists of literals: the side condition `RenOK.lists` (`NoPendingLists`) holds, two
+statements reach the list pass as lists, and the theorem applies to the parsed source and its textual renaming. -/
+
+def progLA : List Str := [
+  "        ORG $3000\n",
+  "START   LDX #TAB\n",
+  "        JMP START\n",
+  "TAB     FCB 1,2,$FF\n",
+  "WORDS   FDB 10,$1234\n"].map String.toList
+
+def progLB : List Str := [
+  "        ORG $3000\n",
+  "GO      LDX #T_1\n",
+  "        JMP GO\n",
+  "T_1     FCB 1,2,$FF\n",
+  "W@      FDB 10,$1234\n"].map String.toList
+
+def renL : List (Str × Str) :=
+  [("START", "GO"), ("TAB", "T_1"), ("WORDS", "W@")].map (fun p => (p.1.toList, p.2.toList))
+
+def ρL (x : Str) : Str := match renL.find? (·.1 == x) with | some p => p.2 | none => x
+
+def imageL : Bytes := [142, 48, 6, 126, 48, 0, 1, 2, 255, 0, 10, 18, 52]
+
+set_option maxRecDepth 1000000 in
+theorem progLA_check : plainCheckB progLA (fun a => decide (a.image = some imageL)) = true := by
+  decide +kernel
+
+set_option maxRecDepth 1000000 in
+theorem progL_renamedText : renamedTextB ρL (parsedOf progLA) (parsedOf progLB) = true := by
+  decide +kernel
+
+set_option maxRecDepth 1000000 in
+/-- two statements of the witness reach the list pass as byte / word lists -/
+theorem progLA_lists : (match Rename.preLists (parsedOf progLA) with
+    | some x => (x.filter (fun s => Rename.isList s.pkg.additional)).length
+    | none => 0) = 2 := by
+  decide +kernel
+
+/-- C18-R2 on a program with literal FCB / FDB lists: the side conditions (with `NoPendingLists`) hold, and the renamed
+source assembles to the same image -/
+theorem C18_R2_witness_lists :
+    RenOK ρL (parsedOf progLA) ∧
+    ∃ A B, back (parsedOf progLA) = .ok A ∧ back (parsedOf progLB) = .ok B ∧ SameButNames ρL A B ∧
+      A.image = some imageL ∧ B.image = some imageL := by
+  obtain ⟨_, A, hA, hcA⟩ := plainCheckB_parts progLA_check
+  have hcA' := of_decide_eq_true hcA
+  have hr : RenOK ρL (parsedOf progLA) := by
+    have h := progL_renamedText
+    simp only [renamedTextB, Bool.and_eq_true] at h
+    exact renOK_of_check h.1.1.1
+  obtain ⟨B, hB, hs⟩ := (C18_R2_text_check ρL _ _ progL_renamedText).2 A hA
+  exact ⟨hr, A, B, hA, hB, hs, hcA', by rw [hs.2.2.1, hcA']⟩
+
 /-! ## the first formalisation `C18_R2_Statement` (Props/C18.lean) is too loose
 
 `RenamedStmt ρ s t` relates label, row, operand kind, value, left and right part, but NOT the operand text — and the
@@ -552,6 +658,8 @@ theorem C18_R2_Statement_false : ¬ C18_R2_Statement := by
 #print axioms progR_renamedText
 #print axioms C18_R2_witness
 #print axioms C18_R2_witness_assemble
+#print axioms C18_R2_witness_lists
+#print axioms progLA_lists
 #print axioms C18_R2_Statement_false
 
 end CoCo.Props
